@@ -1306,10 +1306,16 @@ def forest_sprite(levels: List[int], flags: List[int], rng: random.Random) -> di
         layers.append({"flags": flags[i], "ltype": 1 if group else 0, "level": levels[i], "blend": 0, "opacity": 255, "name": "L%d" % i,
                        "tileset": 0, "ud": None, "default_w": 0, "default_h": 0})
         if not group:
-            cels[(0, i)] = {"kind": "raw", "x": i, "y": 0, "w": 1, "h": 1, "opacity": 255, "pixels": [(10 + i, 20, 30, 255)], "ud": None}
+            if rng.random() < 0.3:
+                # a tilemap layer (1 x 1 tiles; tile 1 is opaque): visibility through the ancestors applies to it like to any layer
+                layers[-1]["ltype"], layers[-1]["tileset"] = 2, 0
+                cels[(0, i)] = {"kind": "tilemap", "x": i, "y": 0, "w": 1, "h": 1, "opacity": 255, "tiles": [1], "ud": None}
+            else:
+                cels[(0, i)] = {"kind": "raw", "x": i, "y": 0, "w": 1, "h": 1, "opacity": 255, "pixels": [(10 + i, 20, 30, 255)], "ud": None}
+    tilesets = [{"id": 0, "count": 2, "tw": 1, "th": 1, "base": 1, "name": "t", "ext": None, "empty0": True, "pixels": [(0, 0, 0, 0), (200, 100, 50, 255)]}]
     return {"width": max(n, 1), "height": 1, "depth": 32, "transparent": 0, "durations": [100], "speed": 100, "palette_chunks": [],
-            "palette": None, "sprite_ud": None, "ext_files": [], "tilesets": [], "layers": layers, "cels": cels, "tags": [],
-            "has_tags_chunk": False, "slices": []}
+            "palette": None, "sprite_ud": None, "ext_files": [], "tilesets": tilesets if any(l["ltype"] == 2 for l in layers) else [],
+            "layers": layers, "cels": cels, "tags": [], "has_tags_chunk": False, "slices": []}
 
 
 def direct_C09(s, data, blk) -> List[str]:
@@ -1604,6 +1610,41 @@ def blend_offset_image(mode: int, rng: random.Random):
     return ase.serialize(ase.Sprite(width=W, height=H, frames=[fr])), B, S, lo, co
 
 
+def blend_tilemap_image(mode: int, rng: random.Random):
+    """two-layer sprite whose upper layer is a TILEMAP layer with blend mode `mode`: the source pixels come from tiles (opaque,
+    translucent and transparent pixels), at opacity 255 as well as lower; the map may be shifted by whole tiles"""
+    tw, th = rng.choice([(4, 4), (8, 4), (3, 5)])
+    cols, rows = rng.randint(2, 5), rng.randint(2, 5)
+    W, H = tw * cols, th * rows
+    nt = rng.randint(2, 6)
+    lo, co = rng.choice([(255, 255), (255, 255), (255, 255), (200, 255), (255, 90), (rng.randrange(256), rng.randrange(256))])
+    tiles_px = [(0, 0, 0, 0)] * (tw * th)      # tile 0: the empty tile
+    for t in range(1, nt):
+        style = rng.choice(["opaque", "mixed", "mixed"])
+        for _ in range(tw * th):
+            a = 255 if style == "opaque" else rng.choice([255, 255, 0, 128, 1])
+            tiles_px.append((rng.randrange(256), rng.randrange(256), rng.randrange(256), a))
+    ox, oy = rng.choice([(0, 0), (0, 0), (1, 0), (-1, -1), (0, 1)])
+    mw, mh = cols, rows
+    ids = [rng.randrange(nt) for _ in range(mw * mh)]
+    B = [(rng.randrange(256), rng.randrange(256), rng.randrange(256), rng.choice([255, 255, 128, 0, 77])) for _ in range(W * H)]
+    S = [None] * (W * H)
+    for ty in range(mh):
+        for tx in range(mw):
+            tid = ids[ty * mw + tx]
+            for py in range(th):
+                for px_ in range(tw):
+                    cx, cy = (tx + ox) * tw + px_, (ty + oy) * th + py
+                    if 0 <= cx < W and 0 <= cy < H:
+                        S[cy * W + cx] = tiles_px[tid * tw * th + py * tw + px_]
+    fr = ase.Frame(chunks=[
+        ase.TilesetChunk(id=0, tile_count=nt, tile_w=tw, tile_h=th, pixels=ase.rgba_bytes(tiles_px)),
+        ase.LayerChunk(flags=1, blend=0, opacity=255, name="b"), ase.LayerChunk(flags=1, blend=mode, opacity=lo, name="map", ltype=2, tileset=0),
+        ase.CelChunk(layer=0, w=W, h=H, pixels=ase.rgba_bytes(B), ctype_cel=2, zlevel=1),
+        ase.CelChunk(layer=1, x=ox * tw, y=oy * th, opacity=co, ctype_cel=3, w=mw, h=mh, tiles=ids)])
+    return ase.serialize(ase.Sprite(width=W, height=H, frames=[fr])), B, S, lo, co
+
+
 def normal_alpha(ba, sa, o):
     if ba == 0:
         return mul_un8(sa, o)
@@ -1643,6 +1684,10 @@ def blend_check(prop: str, tier: str, seed: int) -> int:
             for j in range(6 if quick else 60):
                 data, B, S, lo, co = blend_offset_image(m if j else 0, rng)
                 cases.append((m if j else 0, -1, "offset", w.put(data), B, S, lo, co))
+            # the source layer is a tilemap layer
+            for j in range(4 if quick else 40):
+                data, B, S, lo, co = blend_tilemap_image(m, rng)
+                cases.append((m, -1, "tilemap", w.put(data), B, S, lo, co))
         paths = [c[3] for c in cases]
         res = {prof: vplib.impl_observe(prof, paths, w.dir, 2, timeout=2400, mem_kb=6000000) for prof in ("relchk", "dev")}
         mb = vplib.model_observe(paths, w.dir, 2, timeout=3000)
